@@ -1,4 +1,5 @@
 # Reference forms for logits save / load / densification (never imported, only parsed).
+ZERO_LOGITS = -80.0      # floor for pruned entries, the same in every densifier
 # reference for pero_ocr.core.layout:log_softmax
 def log_softmax(x):
     a = np.logaddexp.reduce(x, axis=1)[:, np.newaxis]
